@@ -29,9 +29,12 @@ def cases(draw, tier):
     if mode == 'weights':
         nd = draw(st.integers(0, 3))
         tys = [draw(gp.types(max_numel=8, depth=2)) for _ in range(nd)]
-        spec = draw(gp.tensor_specs(tys, values=(0.0, 1.0, 2.5, -1.0, math.inf), defaults=(0.0, 0.0, 1.0, -math.inf), p_bcast=0.0))
+        # integral values only in half of the specs: written as JSON integers (1, not 1.0) they must still denote a float tensor
+        vals = (0.0, 1.0, 2.5, -1.0, math.inf) if draw(st.booleans()) else (0.0, 1.0, 1.0, 2.0, -1.0)
+        spec = draw(gp.tensor_specs(tys, values=vals, defaults=(0.0, 0.0, 1.0, 0.5, -math.inf), p_bcast=0.0))
         expand = draw(st.booleans()) and len(spec['paxes']) >= 1
-        return {'mode': 'weights', 'spec': spec, 'expand_first': bool(expand), 'with_default': draw(st.booleans())}
+        return {'mode': 'weights', 'spec': spec, 'expand_first': bool(expand), 'with_default': draw(st.booleans()),
+                'int_literals': draw(st.booleans())}
     base = gen_fgg.specs(recursive=draw(st.booleans()), weights=(0.0, 0.25, 0.5, 1.0, 2.0, math.inf), max_nts=3, max_dom=3, max_edges=3, max_nodes=5)
     spec = draw(gen_fgg.patterned(base, weights=(0.0, 0.5, 1.0, 2.0)) if draw(st.integers(0, 2)) == 0 else base)
     ids = draw(st.sampled_from(['none', 'all', 'mixed']))
@@ -167,6 +170,14 @@ def check_weights(case, ctx):
     else:
         spec['default'] = 0.0
     want = gp.dense_of(spec)
+    def ints(x):
+        if isinstance(x, list): return [ints(y) for y in x]
+        return int(x) if isinstance(x, float) and math.isfinite(x) and x == int(x) else x
+    if case.get('int_literals'):
+        j['physical'] = ints(j['physical'])
+        if 'default' in j: j['default'] = ints(j['default'])
+        if all(isinstance(y, int) for y in (np.array(j['physical'], dtype=object).reshape(-1).tolist() if isinstance(j['physical'], list) else [j['physical']])):
+            ctx.label('all-integer-literals')
     try:
         text = json.dumps(j)
     except Exception as e:
@@ -177,7 +188,7 @@ def check_weights(case, ctx):
     p = gp.invariant_problems(w)
     ctx.require(not p, 'invariant', '; '.join(p))
     # dense form too
-    w2 = ctx.call('json_to_weights', fggs.json_to_weights, json.loads(json.dumps(want.tolist())))
+    w2 = ctx.call('json_to_weights', fggs.json_to_weights, json.loads(json.dumps(ints(want.tolist()) if case.get('int_literals') else want.tolist())))
     ctx.require(np.array_equal(ctx.call('to_dense', w2.to_dense).numpy(), want), 'json_to_weights-wrong', 'dense nested list')
     ctx.label('structured' if gp.is_structured(spec) else 'dense-pattern')
     ctx.nontrivial = gp.is_structured(spec)
